@@ -43,6 +43,10 @@ instance : Monad VRes where
   pure := VRes.ok
   bind := VRes.bind
 
+/-- `kwargs[k] = v` -/
+def kwPut (acc : List (String × Option Val)) (k : String) (v : Option Val) : List (String × Option Val) :=
+  if acc.any (fun p => p.1 == k) then acc.map (fun p => if p.1 == k then (k, v) else p) else acc ++ [(k, v)]
+
 mutual
 def visit (ops : Ops) (bi : List (String × Val)) (tbl : Tbl) : Expr → VRes (Option Val)
   | .const i v => do VRes.record i v; pure (some v)
@@ -137,6 +141,142 @@ def visit (ops : Ops) (bi : List (String × Val)) (tbl : Tbl) : Expr → VRes (O
         VRes.record i r
         pure (some r)
 
+  -- second version ------------------------------------------------------------------------------------
+  | .starred _ _ => VRes.err "NotImplementedError"        -- `generic_visit`: a starred expression is handled by its parent only
+  | .coll i kind es => do
+      let vs ← visitElts ops bi tbl es
+      -- `tuple(elts)` / `set(elts)` is built BEFORE the placeholder test (PLACEHOLDER itself is hashable)
+      let r ← VRes.lift (match kind with
+        | .list => .ok (Val.list (vs.filterMap id))
+        | .tuple => .ok (Val.tuple (vs.filterMap id))
+        | .set => ops.mkSet (vs.filterMap id))
+      if vs.any Option.isNone then pure none
+      else do VRes.record i r; pure (some r)
+  | .dict i items => do
+      let (d, ph) ← visitItems ops bi tbl ops.dictEmpty false items
+      if ph then pure none
+      else do VRes.record i d; pure (some d)
+  | .slice i lo hi step => do
+      let l? ← visitOpt ops bi tbl lo
+      let h? ← visitOpt ops bi tbl hi
+      let s? ← visitOpt ops bi tbl step
+      match l?, h?, s? with
+      | some l, some h, some s => do
+          VRes.record i (.slice l h s)
+          pure (some (.slice l h s))
+      | _, _, _ => pure none
+  | .callkw i f args kws => do
+      let f? ← visit ops bi tbl f
+      match f? with
+      | none => pure none
+      | some fv => do
+          let avs? ← visitArgs ops bi tbl args
+          match avs? with
+          | none => pure none                               -- a starred argument is PLACEHOLDER: immediate return
+          | some avs => do
+              let kvs ← visitKws ops bi tbl [] kws
+              if avs.any Option.isNone || kvs.any (fun p => p.2.isNone) then pure none
+              else do
+                let r ← VRes.lift (ops.callkw fv (avs.filterMap id) (kvs.filterMap (fun p => p.2.map (fun v => (p.1, v)))))
+                VRes.record i r
+                pure (some r)
+  | .fvalue _ e conv spec => do
+      -- the format specification is visited first, the value second; the result is not recorded
+      let sp? ← (match spec with
+        | none => (pure (some none) : VRes (Option (Option Val)))
+        | some sp => do
+            let r? ← visit ops bi tbl sp
+            pure (r?.map some))
+      let v? ← visit ops bi tbl e
+      match sp?, v? with
+      | some sp, some v => do
+          let r ← VRes.lift (ops.format v conv sp)
+          pure (some r)
+      | _, _ => pure none
+  | .fstring i parts => do
+      let vs ← visitList ops bi tbl parts
+      if vs.any Option.isNone then pure none
+      else do
+        let r ← VRes.lift (ops.join (vs.filterMap id))
+        VRes.record i r
+        pure (some r)
+
+/-- `_visit_elts`: a starred element is unpacked, a PLACEHOLDER one stays one element -/
+def visitElts (ops : Ops) (bi : List (String × Val)) (tbl : Tbl) : List Expr → VRes (List (Option Val))
+  | [] => pure []
+  | .starred _ e :: rest => do
+      let s? ← visit ops bi tbl e
+      match s? with
+      | none => do
+          let vs ← visitElts ops bi tbl rest
+          pure (none :: vs)
+      | some s => do
+          let xs ← VRes.lift (ops.iter s)
+          let vs ← visitElts ops bi tbl rest
+          pure (xs.map some ++ vs)
+  | e :: rest => do
+      let v ← visit ops bi tbl e
+      let vs ← visitElts ops bi tbl rest
+      pure (v :: vs)
+
+/-- the argument loop of `visit_Call`: `none` = a starred argument was PLACEHOLDER (the visitor returns at once) -/
+def visitArgs (ops : Ops) (bi : List (String × Val)) (tbl : Tbl) : List Expr → VRes (Option (List (Option Val)))
+  | [] => pure (some [])
+  | .starred _ e :: rest => do
+      let s? ← visit ops bi tbl e
+      match s? with
+      | none => pure none
+      | some s => do
+          let xs ← VRes.lift (ops.iter s)
+          let vs? ← visitArgs ops bi tbl rest
+          pure (vs?.map (fun vs => xs.map some ++ vs))
+  | e :: rest => do
+      let v ← visit ops bi tbl e
+      let vs? ← visitArgs ops bi tbl rest
+      pure (vs?.map (fun vs => v :: vs))
+
+/-- the keyword loop of `visit_Call`: `kwargs[name] = value`, a later keyword of the same name replaces the earlier;
+`**PLACEHOLDER` fails with AttributeError (`PLACEHOLDER.items()`) -/
+def visitKws (ops : Ops) (bi : List (String × Val)) (tbl : Tbl) (acc : List (String × Option Val)) :
+    List (Option String × Expr) → VRes (List (String × Option Val))
+  | [] => pure acc
+  | (some k, e) :: rest => do
+      let v ← visit ops bi tbl e
+      visitKws ops bi tbl (kwPut acc k v) rest
+  | (none, e) :: rest => do
+      let u? ← visit ops bi tbl e
+      match u? with
+      | none => VRes.err "AttributeError"
+      | some u => do
+          let kvs ← VRes.lift (ops.kwItems u)
+          visitKws ops bi tbl (kvs.foldl (fun a p => kwPut a p.1 (some p.2)) acc) rest
+
+/-- the loop of `visit_Dict`: for `k: v` the VALUE is visited first, then the key (`d[visit(k)] = visit(v)`); an item with
+a PLACEHOLDER is not stored (the dictionary is discarded anyway) -/
+def visitItems (ops : Ops) (bi : List (String × Val)) (tbl : Tbl) (d : Val) (ph : Bool) :
+    List (Option Expr × Expr) → VRes (Val × Bool)
+  | [] => pure (d, ph)
+  | (none, e) :: rest => do
+      let u? ← visit ops bi tbl e
+      match u? with
+      | none => visitItems ops bi tbl d true rest
+      | some u => do
+          let d' ← VRes.lift (ops.dictUpdate d u)
+          visitItems ops bi tbl d' ph rest
+  | (some k, e) :: rest => do
+      let v? ← visit ops bi tbl e
+      let k? ← visit ops bi tbl k
+      match k?, v? with
+      | some kv, some vv => do
+          let d' ← VRes.lift (ops.dictSet d kv vv)
+          visitItems ops bi tbl d' ph rest
+      | _, _ => visitItems ops bi tbl d true rest
+
+/-- an optional bound of a slice: absent = `None` (nothing recorded) -/
+def visitOpt (ops : Ops) (bi : List (String × Val)) (tbl : Tbl) : Option Expr → VRes (Option Val)
+  | none => pure (some Val.none)
+  | some e => visit ops bi tbl e
+
 def visitList (ops : Ops) (bi : List (String × Val)) (tbl : Tbl) : List Expr → VRes (List (Option Val))
   | [] => pure []
   | e :: rest => do
@@ -214,12 +354,28 @@ def allIds : Expr → List Nat
   | .ifexp i c t e => i :: (allIds c ++ allIds t ++ allIds e)
   | .display i es => i :: allIdsList es
   | .comp i _ inner => i :: allIdsList inner
+  | .starred i e => i :: allIds e
+  | .coll i _ es => i :: allIdsList es
+  | .dict i items => i :: allIdsItems items
+  | .slice i lo hi step => i :: (allIdsOpt lo ++ allIdsOpt hi ++ allIdsOpt step)
+  | .callkw i f args kws => i :: (allIds f ++ allIdsList args ++ allIdsKws kws)
+  | .fvalue i e _ spec => i :: (allIds e ++ allIdsOpt spec)
+  | .fstring i parts => i :: allIdsList parts
 def allIdsList : List Expr → List Nat
   | [] => []
   | e :: rest => allIds e ++ allIdsList rest
 def allIdsCmp : List (CmpOp × Expr) → List Nat
   | [] => []
   | (_, e) :: rest => allIds e ++ allIdsCmp rest
+def allIdsItems : List (Option Expr × Expr) → List Nat
+  | [] => []
+  | (k, e) :: rest => allIdsOpt k ++ allIds e ++ allIdsItems rest
+def allIdsKws : List (Option String × Expr) → List Nat
+  | [] => []
+  | (_, e) :: rest => allIds e ++ allIdsKws rest
+def allIdsOpt : Option Expr → List Nat
+  | none => []
+  | some e => allIds e
 end
 
 mutual
@@ -236,12 +392,28 @@ def innerIds : Expr → List Nat
   | .ifexp _ c t e => innerIds c ++ innerIds t ++ innerIds e
   | .display _ es => innerIdsList es
   | .comp _ _ inner => allIdsList inner
+  | .starred _ e => innerIds e
+  | .coll _ _ es => innerIdsList es
+  | .dict _ items => innerIdsItems items
+  | .slice _ lo hi step => innerIdsOpt lo ++ innerIdsOpt hi ++ innerIdsOpt step
+  | .callkw _ f args kws => innerIds f ++ innerIdsList args ++ innerIdsKws kws
+  | .fvalue _ e _ spec => innerIds e ++ innerIdsOpt spec
+  | .fstring _ parts => innerIdsList parts
 def innerIdsList : List Expr → List Nat
   | [] => []
   | e :: rest => innerIds e ++ innerIdsList rest
 def innerIdsCmp : List (CmpOp × Expr) → List Nat
   | [] => []
   | (_, e) :: rest => innerIds e ++ innerIdsCmp rest
+def innerIdsItems : List (Option Expr × Expr) → List Nat
+  | [] => []
+  | (k, e) :: rest => innerIdsOpt k ++ innerIds e ++ innerIdsItems rest
+def innerIdsKws : List (Option String × Expr) → List Nat
+  | [] => []
+  | (_, e) :: rest => innerIds e ++ innerIdsKws rest
+def innerIdsOpt : Option Expr → List Nat
+  | none => []
+  | some e => innerIds e
 end
 
 end Icontract.Ex
